@@ -5,6 +5,9 @@ import Proofs.C14.Multipath
 import Proofs.C14.Derive
 import Proofs.C15.Text
 import Proofs.C14.Musig
+import Proofs.C14.Wallet
+import Proofs.C14.Tr
+import Proofs.C14.Toy
 /-!
 # C14 — descriptors and wallets derive what they describe and recognise only their own
 
@@ -305,6 +308,9 @@ theorem parser_tables_as_modelled :
 /-- T2 (miniscript bodies, C15's AST inside this grammar): a sane, satisfiable P2WSH miniscript over
     raw compressed keys that are points, whose text does not begin with a descriptor function name, is
     read back by `_parse_expression` inside `wsh()` as the `MiniscriptDescriptor` of the same expression.
+    Hypothesis `hn : Miniscript.numsOK n` (C15's): every number of the expression — lock times, `multi` / `thresh`
+    thresholds — is written with at most ten decimal digits (`Miniscript.digitsOK`: what btclib's `_NUMBER` reads
+    back); true of every lock time and of every threshold below 10^10.
     (The reading of the miniscript text itself is C15's theorem `parseSyntax_toText`.)  `musig()` keys and
     miniscripts over extended keys stay outside the model. -/
 theorem parse_miniscript_of_text (o : KeyOracle) (fuel : Nat) (n : Miniscript.Ms)
@@ -502,31 +508,42 @@ theorem at_index_commutes (net : String) (prv : PrvKeys) (d d' : D) (i : Nat) (h
       unfold scriptPubKeys
       simp only [hb, h1, h2, if_false, ne_eq, not_true_eq_false, false_and, scripts_atIndex]
 
-/-- `tr(KEY)` / `tr(KEY,TREE)`: the output key is C12's `tweakedPubkey` of the derived internal key with the
-    merkle root of the derived tree (the empty string when there is no tree). -/
-theorem tr_output_is_taproot_tweak (net : String) (prv : PrvKeys) (i : Nat) (k : Key) (t : Tree)
-    (sec : Bytes) (tt : Taproot.Tree) (hk : Key.sec E net prv k i = some sec) (hne : sec ≠ [])
-    (ht : tapTree E net prv i t = some tt) :
-    scripts E net prv i (.tr k none) =
-      (match Taproot.tweakedPubkey E.bip.o E.tag sec [] with
-        | .ok (q, _) => some [0x51 :: push q] | .error _ => none) ∧
-    scripts E net prv i (.tr k (some t)) =
-      (match Taproot.tweakedPubkey E.bip.o E.tag sec (Taproot.root E.tag tt) with
-        | .ok (q, _) => some [0x51 :: push q] | .error _ => none) := by
-  cases sec with
-  | nil => exact absurd rfl hne
-  | cons b bs =>
-    constructor
-    · simp only [scripts, hk, Option.bind_some, p2tr, Taproot.outputPubkey, Taproot.outputPubkeyAndInternalKey,
-        Taproot.truthyKey, Option.getD_some]
-      cases Taproot.tweakedPubkey E.bip.o E.tag (b :: bs) [] with
-      | error e => rfl
-      | ok r => rfl
-    · simp only [scripts, hk, ht, p2tr, Taproot.outputPubkey, Taproot.outputPubkeyAndInternalKey, Taproot.truthyKey,
-        Option.getD_some]
-      cases Taproot.tweakedPubkey E.bip.o E.tag (b :: bs) (Taproot.root E.tag tt) with
-      | error e => rfl
-      | ok r => rfl
+/-- `tr(KEY, TREE)` and C12, in the group (`L : Lawful E.bip.o G`, C01's statement about the arithmetic; `hp`: the
+    field fits 32 bytes; `h32`: tagged hashes are 32 bytes; `hQ`: the tweaked point is not the point at infinity):
+    when the internal key derived at `i` is the SEC form of the point `P`, the derived tree has depth ≤ 128 and the
+    TapTweak `t` of (x(P), merkle root of the derived tree) is in range, the descriptor describes at `i` exactly ONE
+    script, `OP_1 0x20 q`, where `q` is the 32-byte x-coordinate of `P + t·G` — C12's `outputPubkey` of
+    (internal key, tree) — and EVERY leaf of the derived tree has a control block (`input_script_sig`) that C12's
+    `check_output_pubkey` accepts against that very `q`.  (The one-step unfolding `scripts (.tr …) = OP_1 ‖ push
+    (tweakedPubkey …)` is `Btc.Desc.tr_scripts_unfold`, a lemma.) -/
+theorem tr_output_commits_to_key_and_tree {G : Type} [AddCommGroup G] (L : Lawful E.bip.o G)
+    (hp : E.bip.o.p ≤ 2 ^ 256) (h32 : Taproot.Len32 E.tag)
+    (net : String) (prv : PrvKeys) (i : Nat) (k : Key) (t : Tree) (sec : Bytes) (tt : Taproot.Tree) (P : α) (tw : Int)
+    (hk : Key.sec E net prv k i = some sec) (ht : tapTree E net prv i t = some tt)
+    (hdepth : tt.depth ≤ 128)
+    (hP : Taproot.pointFromOctets E.bip.o sec = .ok P)
+    (htw : Taproot.tapTweak E.bip.o E.tag (Taproot.xOnly sec) (Taproot.root E.tag tt) = .ok tw)
+    (hQ : L.abs (Taproot.tweakPoint E.bip.o P tw) ≠ 0) :
+    let q := (Taproot.outKey E.bip.o (Taproot.tweakPoint E.bip.o P tw)).1
+    scripts E net prv i (.tr k (some t)) = some [Taproot.p2trScript q] ∧ q.length = 32 ∧
+    ((ofBE q : Nat) : Int) = E.bip.o.x (Taproot.tweakPoint E.bip.o P tw) ∧
+    ∀ j : Nat, j < (Taproot.leaves E.tag tt).length →
+      ∃ s c, Taproot.inputScriptSig E.bip.o E.tag (some sec) tt j = .ok (s, c) ∧
+        Taproot.checkOutputPubkey E.bip.o E.tag q s c = .ok true :=
+  tr_tree_link E L hp h32 net prv i k t sec tt P tw hk ht hdepth hP htw hQ
+
+/-- `tr(KEY)`: the one script is `OP_1 0x20 q`, `q` the x-coordinate of `P + t·G` with `t` the TapTweak of x(P) alone
+    (BIP86 / BIP341 key-path-only output). -/
+theorem tr_key_only_output {G : Type} [AddCommGroup G] (L : Lawful E.bip.o G) (hp : E.bip.o.p ≤ 2 ^ 256)
+    (net : String) (prv : PrvKeys) (i : Nat) (k : Key) (sec : Bytes) (P : α) (tw : Int)
+    (hk : Key.sec E net prv k i = some sec)
+    (hP : Taproot.pointFromOctets E.bip.o sec = .ok P)
+    (htw : Taproot.tapTweak E.bip.o E.tag (Taproot.xOnly sec) [] = .ok tw)
+    (hQ : L.abs (Taproot.tweakPoint E.bip.o P tw) ≠ 0) :
+    let q := (Taproot.outKey E.bip.o (Taproot.tweakPoint E.bip.o P tw)).1
+    scripts E net prv i (.tr k none) = some [Taproot.p2trScript q] ∧ q.length = 32 ∧
+    ((ofBE q : Nat) : Int) = E.bip.o.x (Taproot.tweakPoint E.bip.o P tw) :=
+  tr_key_link E L hp net prv i k sec P tw hk hP htw hQ
 
 /-! ### `position_of` with the raise mirrored
 
@@ -631,43 +648,161 @@ theorem script_wallet_position_of_own (t : EmbedType) (order : KeyOrder) (tmpl :
     walletPositionOf (scriptWalletSpk E t order tmpl) [0, 1] s last = some (some (b, i)) := by
   rw [hbr]; exact wallet_position_of_own _ pre post last b i s hi hs hpre hbefore
 
-/-- `DescriptorWallet.position_of`, find-first iff: the answer is `(b, i)` iff chain `b` describes the script at
-    `i` within its own searched range (index 0 only when not ranged), does not at any smaller index, every
-    earlier chain derives throughout its range without describing it — and nothing scanned before raised. -/
-theorem descriptor_wallet_position_of_iff (net : String) (prv : PrvKeys) (chains : List D) (s : Bytes)
+/-- the hypotheses of `bip32_wallet_position_of_own` inhabited by `bip32WalletSpk E` ITSELF (not a hand-written
+    table): the BIP32 key wallet of `Proofs/C14/Toy.lean` — btclib's curve arithmetic on the 31-point curve over F₄₃,
+    account key `m/0h` — derives eight distinct p2pkh scripts at `{0,1} × {0..3}` (kernel-evaluated), and the script of
+    position (1, 1) is answered (1, 1). -/
+example : walletPositionOf (bip32WalletSpk toyE .p2pkh toyAcct) [0, 1] (toyScript 3 37) 3 = some (some (1, 1)) :=
+  bip32_wallet_position_of_own toyE .p2pkh toyAcct 3 1 1 (toyScript 3 37) [0] [] rfl (by decide) toy_at
+    (fun b' hb' j hj => any_ne (toy_pre b' hb' j hj)) (fun j hj => any_ne (toy_before j hj))
+
+/-! ### `DescriptorWallet`: chains under arbitrary labels
+
+`DescriptorWallet(Mapping[int, Descriptor])` keeps `dict(sorted(by_branch.items()))`; `walletChains` is that dict,
+`descWalletNew` the constructor with its refusals, `chainsPositionOf` the scan, which answers the LABEL. -/
+
+/-- the wallet's chains are in ascending label order whatever order the mapping was written in, and the chain under
+    a label is the last one the items wrote under it (`dict(items)`); a sequence is labelled `0 … n-1` in order. -/
+theorem descriptor_wallet_branches (items : List (Nat × D)) (l : List D) :
+    (walletChains items).Pairwise (fun a b => a.1 < b.1) ∧
+    (∀ b, (walletChains items).lookup b = items.reverse.lookup b) ∧
+    walletChains (enumerateFrom 0 l) = enumerateFrom 0 l ∧
+    ∀ k : Nat, (enumerateFrom 0 l)[k]? = (l[k]?).map fun d => (k, d) :=
+  ⟨walletChains_ascending items, fun b => lookup_walletChains b items, walletChains_enumerate l,
+    fun k => by simpa using enumerateFrom_getElem? l 0 k⟩
+
+example : (walletChains [(7, .raw [1]), (2, .raw [2]), (7, .raw [3]), (0, .raw [4])]).map (·.1) = [0, 2, 7] ∧
+    (walletChains [(7, .raw [1]), (2, .raw [2]), (7, .raw [3]), (0, .raw [4])]).lookup 7 = some (.raw [3]) := by
+  decide
+
+/-- what `DescriptorWallet.__init__` accepts: at least one item, no negative label, no `combo()`, one network, and a
+    first chain (smallest label) that describes exactly one script at index 0; the wallet then holds
+    `walletChains` of the items under the network of its descriptors. -/
+theorem descriptor_wallet_new_iff (prv : PrvKeys) (items : List (Int × String × D)) (net : String)
+    (chains : List (Nat × D)) :
+    descWalletNew E prv items = some (net, chains) ↔
+      ∃ b0 n0 d0 rest, items = (b0, n0, d0) :: rest ∧
+        (∀ x ∈ items, 0 ≤ x.1 ∧ x.2.2.isCombo = false) ∧
+        (∀ x ∈ items, descNetwork E x.2.1 x.2.2 = descNetwork E n0 d0) ∧
+        net = descNetwork E n0 d0 ∧
+        chains = walletChains (items.map fun x => (x.1.toNat, x.2.2)) ∧
+        ∃ b d tl s, chains = (b, d) :: tl ∧ scriptPubKey E net prv d 0 = some s := by
+  unfold descWalletNew
+  cases items with
+  | nil => simp
+  | cons it rest =>
+    obtain ⟨b0, n0, d0⟩ := it
+    simp only
+    by_cases h1 : (((b0, n0, d0) :: rest).any fun x => decide (x.1 < 0) || x.2.2.isCombo) = true
+    · rw [if_pos h1]
+      simp only [reduceCtorEq, false_iff, not_exists, not_and]
+      rintro b0' n0' d0' rest' e hall
+      obtain ⟨x, hx, hbad⟩ := List.any_eq_true.mp h1
+      have := hall x hx
+      rcases Bool.or_eq_true _ _ |>.mp hbad with hb | hb
+      · have : x.1 < 0 := by simpa using hb
+        omega
+      · rw [this.2] at hb; cases hb
+    · rw [if_neg h1]
+      have hall : ∀ x ∈ (b0, n0, d0) :: rest, 0 ≤ x.1 ∧ x.2.2.isCombo = false := by
+        intro x hx
+        have := (List.any_eq_true.not.mp h1)
+        have hx' : ¬ ((decide (x.1 < 0) || x.2.2.isCombo) = true) := fun hb => this ⟨x, hx, hb⟩
+        simp only [Bool.or_eq_true, decide_eq_true_eq, not_or, Bool.not_eq_true] at hx'
+        exact ⟨by omega, hx'.2⟩
+      by_cases h2 : (((b0, n0, d0) :: rest).any fun x => descNetwork E x.2.1 x.2.2 != descNetwork E n0 d0) = true
+      · rw [if_pos h2]
+        simp only [reduceCtorEq, false_iff, not_exists, not_and]
+        rintro b0' n0' d0' rest' e _ hnet
+        simp only [List.cons.injEq, Prod.mk.injEq] at e
+        obtain ⟨⟨-, rfl, rfl⟩, -⟩ := e
+        obtain ⟨x, hx, hbad⟩ := List.any_eq_true.mp h2
+        have := hnet x hx
+        rw [this] at hbad
+        exact absurd hbad (by rw [bne_self_eq_false]; decide)
+      · rw [if_neg h2]
+        have hnet : ∀ x ∈ (b0, n0, d0) :: rest, descNetwork E x.2.1 x.2.2 = descNetwork E n0 d0 := by
+          intro x hx
+          have hx' : ¬ ((descNetwork E x.2.1 x.2.2 != descNetwork E n0 d0) = true) :=
+            fun hb => (List.any_eq_true.not.mp h2) ⟨x, hx, hb⟩
+          simpa using hx'
+        constructor
+        · intro h
+          cases hc : walletChains (((b0, n0, d0) :: rest).map fun x => (x.1.toNat, x.2.2)) with
+          | nil => rw [hc] at h; cases h
+          | cons c tl =>
+            obtain ⟨b, d⟩ := c
+            rw [hc] at h
+            cases hs : scriptPubKey E (descNetwork E n0 d0) prv d 0 with
+            | none => simp [hs] at h
+            | some s =>
+              simp only [hs, Option.map_some, Option.some.injEq, Prod.mk.injEq] at h
+              obtain ⟨rfl, rfl⟩ := h
+              exact ⟨b0, n0, d0, rest, rfl, hall, hnet, rfl, rfl, b, d, tl, s, rfl, hs⟩
+        · rintro ⟨b0', n0', d0', rest', e, _, _, hn, hch, b, d, tl, s, hcons, hs⟩
+          simp only [List.cons.injEq, Prod.mk.injEq] at e
+          obtain ⟨⟨rfl, rfl, rfl⟩, rfl⟩ := e
+          subst hn
+          rw [← hch, hcons]
+          simp only [hs, Option.map_some]
+
+/-- `DescriptorWallet.position_of`, find-first iff, chains under ANY labels: the answer is `(b, i)` iff the wallet
+    holds a chain `d` under label `b` that describes the script at `i` within its own searched range (index 0 only
+    when not ranged), does not at any smaller index, every chain under a SMALLER label derives throughout its range
+    without describing it — and nothing scanned before raised.  (`chainHit` = does the chain describe the script at
+    this index, `none` when the derivation raises; `chainLast` = `last_index` or 0.) -/
+theorem descriptor_wallet_position_of_iff (net : String) (prv : PrvKeys) (chains : List (Nat × D)) (s : Bytes)
     (last b i : Nat) :
-    descWalletPositionOf E net prv chains s last = some (some (b, i)) ↔
-      ∃ pre post, List.range chains.length = pre ++ b :: post ∧
-        Scan.AllMiss (fun (b : Nat) i => match chains[b]? with
-            | some d => (scriptPubKeys E net prv d i).map fun l => decide (s ∈ l)
-            | none => some false)
-          (fun b => match chains[b]? with | some d => (if d.isRanged then last else 0) | none => 0) pre ∧
-        ∃ d, chains[b]? = some d ∧ i ≤ (if d.isRanged then last else 0) ∧
-          (∃ l, scriptPubKeys E net prv d i = some l ∧ s ∈ l) ∧
-          ∀ j, j < i → ∃ l, scriptPubKeys E net prv d j = some l ∧ s ∉ l := by
-  unfold descWalletPositionOf
-  rw [Scan.scanE_hit_iff]
-  constructor
-  · rintro ⟨pre, post, e, hpre, h1, h2, h3⟩
-    refine ⟨pre, post, e, hpre, ?_⟩
-    cases hc : chains[b]? with
-    | none => simp [hc] at h2
-    | some d =>
-      simp only [hc] at h1 h2 h3
-      refine ⟨d, rfl, h1, ?_, ?_⟩
-      · cases hl : scriptPubKeys E net prv d i with
-        | none => simp [hl] at h2
-        | some l => exact ⟨l, rfl, by simpa [hl] using h2⟩
-      · intro j hj
-        have := h3 j hj
-        cases hl : scriptPubKeys E net prv d j with
-        | none => simp [hl] at this
-        | some l => exact ⟨l, rfl, by simpa [hl] using this⟩
-  · rintro ⟨pre, post, e, hpre, d, hc, h1, ⟨l, hl, hm⟩, h3⟩
-    refine ⟨pre, post, e, hpre, by simpa [hc] using h1, by simp [hc, hl, hm], ?_⟩
-    intro j hj
-    obtain ⟨l', hl', hn⟩ := h3 j hj
-    simp [hc, hl', hn]
+    chainsPositionOf E net prv chains s last = some (some (b, i)) ↔
+      ∃ pre d post, chains = pre ++ (b, d) :: post ∧
+        Scan.AllMiss (chainHit E net prv s) (chainLast last) pre ∧
+        i ≤ (if d.isRanged then last else 0) ∧
+        (∃ l, scriptPubKeys E net prv d i = some l ∧ s ∈ l) ∧
+        ∀ j, j < i → ∃ l, scriptPubKeys E net prv d j = some l ∧ s ∉ l :=
+  chainsPositionOf_hit_iff E net prv chains s last b i
+
+/-- … "not mine" iff every chain derives throughout its searched range and none describes the script. -/
+theorem descriptor_wallet_not_mine_iff (net : String) (prv : PrvKeys) (chains : List (Nat × D)) (s : Bytes)
+    (last : Nat) :
+    chainsPositionOf E net prv chains s last = some none ↔
+      Scan.AllMiss (chainHit E net prv s) (chainLast last) chains :=
+  chainsPositionOf_none_iff E net prv chains s last
+
+/-- "returns that position", with labels: the script `DescriptorWallet.script_pub_key(b, i)` answers for a label `b`
+    of the wallet (`chains` ascending, as `walletChains` always is) is answered `(b, i)` by `position_of` when `i` is
+    in the chain's searched range, every chain under a smaller label derives throughout without describing it, and
+    the chain itself derives a different script at every smaller index.  Nothing is asked of larger labels/indexes. -/
+theorem descriptor_wallet_position_of_own (net : String) (prv : PrvKeys) (pre post : List (Nat × D)) (d : D)
+    (s : Bytes) (last b i : Nat) (hasc : (pre ++ (b, d) :: post).Pairwise (fun a c => a.1 < c.1))
+    (hi : i ≤ (if d.isRanged then last else 0))
+    (hpre : Scan.AllMiss (chainHit E net prv s) (chainLast last) pre)
+    (hbefore : ∀ j, j < i → ∃ l, scriptPubKeys E net prv d j = some l ∧ s ∉ l)
+    (hs : chainsScriptPubKey E net prv (pre ++ (b, d) :: post) b i = some s) :
+    chainsPositionOf E net prv (pre ++ (b, d) :: post) s last = some (some (b, i)) := by
+  rw [chainsPositionOf_hit_iff]
+  refine ⟨pre, d, post, rfl, hpre, hi, ?_, hbefore⟩
+  have hl := lookup_of_split _ pre post b d hasc rfl
+  simp only [chainsScriptPubKey, hl, scriptPubKey] at hs
+  cases hsp : scriptPubKeys E net prv d i with
+  | none => simp [hsp] at hs
+  | some l =>
+    rw [hsp] at hs
+    match l, hs with
+    | [x], hs => exact ⟨[x], rfl, by simp at hs; simp [hs]⟩
+
+/-- a wallet under labels 5 and 2, written in that order: searched 2 first, the LABEL is answered; a label the
+    wallet does not hold has no script. -/
+example :
+    let chains := walletChains [(5, .raw [0xaa]), (2, .raw [0xbb])]
+    chainsPositionOf toyE "mainnet" [] chains [0xaa] 9 = some (some (5, 0)) ∧
+    chainsPositionOf toyE "mainnet" [] chains [0xbb] 9 = some (some (2, 0)) ∧
+    chainsPositionOf toyE "mainnet" [] chains [0xcc] 9 = some none ∧
+    chainsScriptPubKey toyE "mainnet" [] chains 5 0 = some [0xaa] ∧
+    chainsScriptPubKey toyE "mainnet" [] chains 0 0 = none ∧
+    descWalletNew toyE [] [(5, "mainnet", .raw [0xaa]), (-1, "mainnet", .raw [0xbb])] = none ∧
+    (descWalletNew toyE [] [(5, "mainnet", .raw [0xaa]), (2, "mainnet", .raw [0xbb])]).map (·.2.map (·.1)) =
+      some [2, 5] := by
+  decide +kernel
 
 end T3
 
